@@ -7,7 +7,9 @@ CHECK = {
             "selections x no_parent x no_default_policy x period x custom id x type; (B) 7 parents x ttl x explicit_max_ttl x "
             "period x num_uses x 3 policy selections; (R) token roles x parents x policy selections x no_default x ttl; (L) "
             "auth-backend logins returning every subset of {default, p1, root, response-wrapping, control-group} x ttl x token "
-            "type x period. Every created token is judged on the response and on auth/token/lookup. distinct non-trivial = "
+            "type x period (and non-canonical spellings of the forbidden names); (M) the same policy selections through a "
+            "two-phase login: a TOTP login-MFA enforcement covers the mount, the token is minted by sys/mfa/validate (fresh "
+            "entity per attempt). Every created token is judged on the response and on auth/token/lookup. distinct non-trivial = "
             "distinct (parent, endpoint, resulting policies, orphan, periodic, type, ttl class) / refusal classes",
     "assumptions": [
         "only the 'never' clauses of the statement are checked; a refusal is never an alarm",
